@@ -298,6 +298,10 @@ ITEMS = [
     Item('concatenate.rows', K16.sym_concatenator, [], P + 'concatenate.py::concatenator'),
     Item('duplicate.func', K16.sym_duplicate_func, [], P + 'duplicate.py::duplicate.func'),
     Item('join.process_target', K11.sym_process_target, [], P + 'join.py::join_aux.process_target'),
+    # descriptor phase and stream phase of join treat the same resources in the same order (one stream per descriptor)
+    Item('join.process_datapackage', K11.sym_join_process_datapackage, [], P + 'join.py::join_aux.process_datapackage'),
+    Item('join.new_resource_iterator', K11.sym_new_resource_iterator, [], P + 'join.py::join_aux.new_resource_iterator'),
+    Item('join.func', K11.sym_join_func, [], P + 'join.py::join_aux.func'),
     Item('schema_validator', K14.sym_schema_validator, [], 'dataflows/base/schema_validator.py::schema_validator'),
     Item('set_type', K14.sym_set_type_selection, [('multi-resource', K14.nat_set_type_multi)], P + 'set_type.py::set_type.process_datapackage'),
 ]
